@@ -57,7 +57,7 @@ def make_config(seed, tier="quick"):
         chunk_law="whole",
         max_actions=80 if not thorough else 200,
         settle_s=6.0,
-        settle_extra_s=0.5,
+        settle_extra_s=1.6,
         max_boundaries=6000,
         start_offset=round(r.random(), 3),
     )
@@ -82,6 +82,7 @@ class GateSim(PeerSim):
         self.stim_log = []
         self.app_id = 0
         self.wire_ptr = 0
+        self.quiet_since = None
 
     def new_epoch(self):
         return dict(n=self.epoch, wrote_logon=False, got_logon=False, complete=False, disconnected=False,
@@ -411,11 +412,23 @@ class GateSim(PeerSim):
             self.busy_sends -= 1
 
     # ----------------------------------------------------- per-stimulus judge
+    def window_over(self):
+        """The endpoint polls an unconnected socket once per second, so a window only ends after the
+        endpoint has been quiet for more than one tick of virtual time."""
+        if not self.quiet():
+            self.quiet_since = None
+            return False
+        now = self.loop.time()
+        if self.quiet_since is None:
+            self.quiet_since = now
+        return now - self.quiet_since >= 1.1
+
     def boundary_check(self):
         if not self.prefix_done:
             self.drive_prefix()
-        if self.cur is not None and self.quiet():
+        if self.cur is not None and self.window_over():
             cur, self.cur = self.cur, None
+            self.quiet_since = None
             self.close_window(cur)
 
     def judge(self):
@@ -423,6 +436,7 @@ class GateSim(PeerSim):
             self.probe("prefix_not_reached")
             return
         if self.cur is not None and self.quiet():
+            # the settle phase ran to quiescence plus settle_extra_s (> one poll tick)
             cur, self.cur = self.cur, None
             self.close_window(cur)
 
@@ -440,7 +454,10 @@ class GateSim(PeerSim):
         wrote = []
         for (ev, cid, data, dropped) in self.writes.get("E", [])[cur["writes"]:]:
             for fr in refframer.scan_frames(data):
-                wrote.append(refframer.fdict(fr))
+                d = refframer.fdict(fr)
+                if d.get("35") == "1":
+                    continue  # the watchdog's own TestRequest (timer-driven), not a reaction to the frame
+                wrote.append(d)
         now = self.eut.connection_state
         disconnected = now <= DISC
         ctx = f"defect={defect}/type={t}/state={st0.name}/role={self.eut_role}"
